@@ -1,6 +1,7 @@
 SPECIFICATION TSpec
 CONSTANTS
   M = 150
+  HugeFix = TRUE
   MaxPh = 0
   Alphabet = {}
 INVARIANT Judge
